@@ -3,7 +3,12 @@ Spec: GleamGen.tla supplies, for every declaration of a generated program, the s
 (RenameSet: the declaring token and every occurrence bound to it that is spelled with its own name; TLC checks
 RenameComplete on the model).  GEN: for every declaration the real rename (queried at a seeded occurrence, fresh
 lower/upper-case name) must produce exactly that edit set as whole-token, non-overlapping edits; after applying them
-the binding map (goto at every identifier) and the diagnostics are unchanged, and renaming back restores the text."""
+the binding map (goto at every identifier) and the diagnostics are unchanged, and renaming back restores the text.
+Workspace: m1 in package `app`, the library modules m2 and sub/m2 in a second local package `lib` that `app` depends on
+(one workspace in four: a single package).  A library declaration (reached through either accessor or an unqualified
+import) is renamed twice - from a seeded occurrence in m1 and from its declaration: the edits must cover the occurrences
+in the dependent package AND the declaration plus its uses inside its own module; the other library module (same names,
+same last path segment) must stay untouched."""
 import json
 import vlib
 from checks import scope_common
@@ -42,10 +47,11 @@ def run(out, tier, seed):
     out.cov["samples"] += [{"refusal_messages_seen": s["refusal_messages"], "renames_tried": s["renames_tried"], "refused": s["refused"]},
                            {"program": " ".join(t["t"] for t in last["out"] if t["r"] not in ("open", "close")), "ren": last["ren"]}]
     out.cov["exhaustive"] = True
-    out.cov["rule"] = ("every declaration (local binder of every pattern form, parameter, function, constant, library function/constructor/"
-                       "constant reached through qualified or unqualified imports) of every GleamGen program (BFS budget + simulation) is renamed "
-                       "once, queried at a seeded occurrence; distinct_nontrivial = renames whose edit set matched and that went through "
-                       "apply / re-analysis / rename-back")
+    out.cov["rule"] = ("every declaration (local binder of every pattern form, parameter, function, constant, type, field; library function/"
+                       "constructor/constant/type/field of m2 and sub/m2 reached through either accessor or unqualified imports) of every GleamGen "
+                       "program (BFS b1 + b1h over all import headers + simulation) is renamed once from a seeded occurrence, library declarations "
+                       "also from their declaration in the other package; distinct_nontrivial = renames whose edit set (all three modules) matched "
+                       "and that went through apply / re-analysis / rename-back")
     out.assumptions += ["the fresh names zz9 / Zz9 occur nowhere in the generated programs", "refused renames are outside C07 (C08 decides them)"]
 
 
